@@ -1,6 +1,6 @@
 #!/usr/bin/env python3
 """Developer tool (never run by a check): append boundary witnesses found by the last
-C07 run (runs/C07/jobs/*.out.json) to corpus/c07_boundary.jsonl, de-duplicated, keeping at
+C07 run (runs/C07/<tier>/jobs/*.out.json) to corpus/c07_boundary.jsonl, de-duplicated, keeping at
 most N per boundary kind. Every corpus entry is re-classified by dilref at check time and
 only counted if it still is a boundary case."""
 import json, glob, sys, collections
@@ -11,7 +11,7 @@ seen = {(e['seed'], e['msg']) for e in have}
 per = collections.Counter()
 for e in have:
     for k in e['kinds'].split(','): per[k] += 1
-for f in sorted(glob.glob('/verif/runs/C07/jobs/*.out.json')):
+for f in sorted(glob.glob('/verif/runs/C07/*/jobs/*.out.json')):
     for w in json.load(open(f)).get('sets', {}).get('boundary_witnesses', []):
         e = json.loads(w)
         if (e['seed'], e['msg']) in seen: continue
